@@ -262,8 +262,11 @@ outer:
 
 		// Move backtrace from body to header.
 		hops := 0
+		s.Lock()
+		ttl := s.ttl
+		s.Unlock()
 		for {
-			if hops >= s.ttl {
+			if hops >= ttl {
 				m.Free() // ErrTooManyHops
 				continue outer
 			}
